@@ -16,7 +16,7 @@ CORR_V = ('Corr/CorrC05.v',)
 HEADER = 'From Coq Require Import QArith String.\nRequire Import V.H5.Naming V.H5.Attrs V.Proc.Reuse V.Corr.CorrC05.\nOpen Scope string_scope.\n'
 
 DSETS = ['Raw', 'Raw_Data']
-TOOLS = ['Fit', 'SHO_Fit', 'Fit2']
+TOOLS = ['Fit', 'SHO_Fit', 'Fit2', 'Fit_2']       # 'Fit_2' + index reads 'Fit' + '_2_000'
 PARMS = [{'k1': 1, 'k2': [1, 2, 3]}, {'k1': 2, 'k2': [1, 2, 3]}, {'k1': 1, 'k2': [1, 2]}, {'k1': 1, 'k2': [1, 2, 3], 'k3': 'ab'},
          {'k1': 1.0, 'k2': [1, 2, 3]}, {'k1': 1}]
 
@@ -164,20 +164,30 @@ def run(ctx, build):
             target = ft if separate else None
             this_d, this_t, this_p = rng.choice(DSETS), rng.choice(TOOLS), rng.choice(PARMS[:4])
             groups = []
-            # the first histories are fixed designs (independent of the seed): exactly one matching group that is partial /
-            # complete, judged with and without override
-            forced = hi < 10
-            for gi in range(1 if forced else rng.randint(0, 5)):
+            # the first histories are fixed designs (independent of the seed), each a list of (tool or None = this tool, progress):
+            # exactly one matching group that is partial / complete / over-long / malformed, judged with and without override;
+            # a large group that is all but complete; an older legacy and a newer modern incomplete group in either order;
+            # complete / partial results of the sibling tool whose name is this tool's name + '_<digits>'
+            near = ('partial', [0 if i == N // 3 else 1 for i in range(N)], None)
+            first = ('partial', [1] + [0] * (N - 1), None)
+            designs = [[(None, pr)] for pr in (first, ('complete', [1] * N, None), ('status_wrong_length', [1] * N),
+                                               ('status_malformed_values', [2] * (N // 2 + 1) + [0] * (N - N // 2 - 1))) for _ in (0, 1)]
+            designs += [[(None, near)], [(None, near)],
+                        [(None, ('legacy', N // 2)), (None, first)], [(None, first), (None, ('legacy', N // 2))],
+                        [('Fit_2', ('complete', [1] * N, None))], [('Fit_2', first)]]
+            forced = hi < len(designs)
+            if forced and hi >= 12:
+                this_t = 'Fit'
+            plan = designs[hi] if forced else [None] * rng.randint(0, 5)
+            for item in plan:
                 r = rng.random()
                 dn = this_d if (r < 0.6 or forced) else rng.choice(DSETS)
                 tool = this_t if (rng.random() < 0.6 or forced) else rng.choice(TOOLS)
                 parms = this_p if (rng.random() < 0.6 or forced) else rng.choice(PARMS)
                 prog = gen_progress(rng, N)
                 if forced:
-                    prog = [('partial', [1] + [0] * (N - 1), None), ('complete', [1] * N, None), ('status_wrong_length', [1] * N),
-                            ('status_malformed_values', [2] * (N // 2 + 1) + [0] * (N - N // 2 - 1))][(hi // 2) % 4]
-                    if hi >= 8:
-                        prog = ('partial', [0 if i == N // 3 else 1 for i in range(N)], None)
+                    tool = item[0] or this_t
+                    prog = item[1]
                 hist['progress_kinds'][prog[0]] = hist['progress_kinds'].get(prog[0], 0) + 1
                 name, status, lp = make_group(rng, mains[dn], N, M, tool, parms, target, prog)
                 groups.append({'name': name, 'dset': dn, 'tool': tool, 'parms': parms, 'progress': prog, 'status': status, 'last_pixel': lp})
@@ -191,8 +201,15 @@ def run(ctx, build):
                                'status': status, 'last_pixel': lp})
                 hist['twin_source_in_separate_target'] = hist.get('twin_source_in_separate_target', 0) + 1
             parent = ft if separate else grp0
+            # seeding a later group constructs a Process, which upgrades every matching legacy group that already exists
+            # (known finding KF-C05-CTOR-UPGRADES-LEGACY): put the history back to what was designed
+            for g in groups:
+                if g['status'] == ('none',) and 'completed_positions' in parent[g['name']]:
+                    del parent[g['name']]['completed_positions']
+                    hist['legacy_groups_restored_after_seeding'] = hist.get('legacy_groups_restored_after_seeding', 0) + 1
+            parent.file.flush()
             before = {g['name']: digest(parent[g['name']]) for g in groups}
-            override = (hi % 2 == 0) if hi < 8 else (False if hi < 10 else rng.random() < 0.3)
+            override = (hi % 2 == 0) if hi < 8 else (False if forced else rng.random() < 0.3)
             hist['histories'] += 1
             hist['separate_target'] += int(separate)
             hist['override'] += int(override)
@@ -302,7 +319,7 @@ def run(ctx, build):
     out.disagreements = [meta[i] for i in bad]
     out.evaluations = len(cases)
     out.distinct_nontrivial = len(distinct)
-    out.rule = ('histories of 0..5 earlier result groups over datasets {Raw, Raw_Data} (one name is a prefix of the other) and tools {Fit, SHO_Fit, Fit2}, '
+    out.rule = ('histories of 0..5 earlier result groups over datasets {Raw, Raw_Data} (one name is a prefix of the other) and tools {Fit, SHO_Fit, Fit2, Fit_2}, '
                 'parameter dictionaries differing in one value / type / length / extra key, progress records: complete, partial (arbitrary masks), both '
                 'records, legacy last_pixel (0, N/2, N-1, N, N+3, -1), marks other than 0/1, wrong dtype, wrong length, a group instead of a dataset, '
                 'none; same-file and separate-file targets; then the real Process is constructed and compute(override F/T) run with a call log and '
